@@ -369,10 +369,6 @@ impl WScript {
         s
     }
 
-    fn notifies(&self) -> usize {
-        self.steps.iter().filter(|s| **s == W::Notify).count()
-    }
-
     fn without(&self, drop: impl Fn(&W) -> bool) -> WScript {
         WScript { conns: self.conns.clone(), steps: self.steps.iter().copied().filter(|s| !drop(s)).collect(), limit: self.limit }
     }
